@@ -787,6 +787,158 @@ def h7_set_order(chk, rng, tier):
             replay_h7_compliances(chk, cc, ks, bad)
 
 
+def h7c_config_order_to_files(chk, rng, tier):
+    """H7c: the key order of the merged configuration (decided by set iteration order inside update_config, i.e. by the hash seed) must not
+    reach the files: the real update_config runs under OrderSet (all orders, forking executor), then the real write_output runs once per
+    distinct key order of the merged output section; the last table written to every file name must be the same on every order -- also
+    when a pressure-base and a volume-base entry name the same file."""
+    import cij.io.config.config as cfgmod
+    import cij.core.calculator as cc
+    t0 = time.time()
+    ov_p = {"keyword": "bm_VRH", "fname": "shared_bm.txt"}
+    ov_v = {"keyword": "bm_VRH", "fname": "shared_bm.txt"}
+    user = {"output": {"pressure_base": ["cij", ov_p, "v"], "volume_base": ["p", ov_v]}}
+    default = {"output": {"pressure_base": ["cij", "bm_VRH"], "volume_base": ["p"]}, "elast": {"settings": {"mode_gamma": {"interpolator": "lsq_poly"}}}}
+    ctx0 = new_context()
+    ctx0.concretise_enabled = True
+
+    def merge():
+        OrderSet.runs[0] = 0
+        with patched((cfgmod, {"set": OrderSet})):
+            return cfgmod.update_config(user, default)
+    ex = X.Explorer(max_paths=500, name="C14:H7c:merge", decision_timeout_ms=4000)
+    try:
+        paths = ex.run(merge)
+    except (SymError, X.PathBudgetExceeded) as e:
+        chk.inconclusive("H7c", str(e))
+        return
+    merged = {}
+    for p in paths:
+        if p.exception is not None:
+            chk.obligation("H7c merged configuration", "sat", kind="order-independence", detail="raises %r" % (p.exception,))
+            replay_h7_config(chk, cfgmod, "raises %r" % (p.exception,))
+            return
+        out = p.result.get("output", {})
+        merged.setdefault(tuple(out.keys()), p.result)
+    results = {}
+    fails = []
+    for order, cfg in sorted(merged.items()):
+        ctx, calc, C, Ciso, keys, (nt, nv, ntp), U = C15.make_setup(cc, tier)
+        proxy = NumpyProxy()
+        proxy.close_mode = "structural"
+        v2p, _calls = v2p_stub_factory(ctx, nt, ntp)
+        sink = []
+
+        def save_tv(value, t, vgrid, tsample, fname):
+            sink.append((fname, ("tv", numpy.asarray(value, dtype=object).copy())))
+
+        def save_tp(value, t, pgrid, psample, fname):
+            sink.append((fname, ("tp", numpy.asarray(value, dtype=object).copy())))
+
+        def scenario():
+            with patched((cc, {"numpy": proxy, "v2p": v2p, "save_x_tv": save_tv, "save_x_tp": save_tp})):
+                calc._calculate_compliances()
+                del sink[:]
+                calc.__dict__["config"] = cfg
+                calc.write_output()
+                return list(sink)
+        try:
+            w = X.run_single_path(scenario, name="C14:H7c", generic=True)
+        except SymError as e:
+            chk.inconclusive("H7c", str(e))
+            return
+        except Exception as e:
+            fails.append("write_output raises %s: %s with the output section in key order %s" % (type(e).__name__, e, list(order)))
+            continue
+        results[order] = dict(w)        # last write wins, as on disk
+    orders = sorted(results)
+    if len(orders) >= 2:
+        ref = results[orders[0]]
+        for o in orders[1:]:
+            if set(results[o]) != set(ref):
+                fails.append("the set of files depends on the key order of the merged output section")
+                continue
+            for fname, (kind, val) in ref.items():
+                k2, v2 = results[o][fname]
+                if k2 != kind or not same_shape_sym(val, v2):
+                    fails.append("file %s finally holds the (%s) table with the output section in key order %s and the (%s) table in key order %s"
+                                 % (fname, kind.upper(), list(orders[0]), k2.upper(), list(o)))
+    chk.obligation("H7c key order of the merged configuration (set iteration order in update_config = hash seed) does not reach the files: "
+                   "write_output leaves the same final table under every file name for all %d key orders of the output section "
+                   "(%d merge orders explored; one file named by a pressure-base and a volume-base entry)" % (len(orders), len(paths)),
+                   "unsat" if not fails else "sat", seconds=round(time.time() - t0, 2), kind="order-independence",
+                   logic="QF_LRA(finite domain)", detail=fails[:3])
+    chk.witness("H7c more than one key order of the output section is reachable", "sat" if len(merged) >= 2 else "unsat")
+    if fails:
+        replay_h7c(chk, cc, cfgmod, fails[0])
+
+
+def same_shape_sym(a, b):
+    a = numpy.asarray(a, dtype=object)
+    b = numpy.asarray(b, dtype=object)
+    return a.shape == b.shape and arrays_equal(a, b, "C14:H7c")
+
+
+def replay_h7c(chk, cc, cfgmod, what):
+    """Concrete: the real Calculator on a shipped example, its configuration merged with the builtin set of config.py replaced by lists that
+    iterate in a fixed permutation (what another hash seed does); the files written must be byte-identical for every permutation."""
+    import itertools as it
+    import shutil
+    import tempfile
+    import yaml
+    import logging
+    src = os.path.join(os.environ.get("CIJ_REPO", "/repo"), "examples", "akimotoite")
+    tmp = tempfile.mkdtemp(prefix="c14o_")
+    cwd = os.getcwd()
+    try:
+        for f in ("input01", "input02"):
+            shutil.copy(os.path.join(src, f), tmp)
+        cfg = yaml.safe_load(open(os.path.join(src, "settings.yaml")))
+        cfg["qha"]["settings"].update(NT=6, NTV=31)
+        cfg["output"] = {"pressure_base": ["cij", {"keyword": "bm_VRH", "fname": "shared_bm.txt"}, "v"],
+                         "volume_base": ["p", {"keyword": "bm_VRH", "fname": "shared_bm.txt"}]}
+        with open(os.path.join(tmp, "settings.yaml"), "w") as fp:
+            yaml.safe_dump(cfg, fp)
+        logging.disable(logging.CRITICAL)
+        snaps = []
+        for perm_seed in (0, 1, 2, 5):
+            class PSet(list):
+                def __init__(self, itb=()):
+                    items = list(dict.fromkeys(itb))
+                    perms = list(it.islice(it.permutations(items), 0, 720))
+                    list.__init__(self, perms[perm_seed % len(perms)])
+            d = os.path.join(tmp, "out%d" % perm_seed)
+            os.makedirs(d)
+            with warnings.catch_warnings():
+                warnings.simplefilter("ignore")
+                with patched((cfgmod, {"set": PSet})):
+                    calc = cc.Calculator(os.path.join(tmp, "settings.yaml"))
+                os.chdir(d)
+                calc.write_output()
+                os.chdir(cwd)
+            snaps.append((perm_seed, {f: open(os.path.join(d, f), "rb").read() for f in sorted(os.listdir(d))}))
+        for perm_seed, snap in snaps[1:]:
+            if set(snap) != set(snaps[0][1]):
+                chk.violation("set-order:files:file-set", "the set of output files depends on the iteration order of the key sets in update_config "
+                              "(hash seed): %s" % sorted(set(snap) ^ set(snaps[0][1]))[:4], dict(output=cfg["output"]))
+                return
+            diff = [f for f in snap if snap[f] != snaps[0][1][f]]
+            if diff:
+                chk.violation("set-order:files:bytes", "the bytes of %s depend on the iteration order of the key sets in update_config, i.e. on the "
+                              "interpreter's hash seed (orders #0 and #%d; an output section whose pressure-base and volume-base entries name the "
+                              "same file) [%s]" % (diff[:3], perm_seed, what[:160]), dict(output=cfg["output"]))
+                return
+    except Exception as e:
+        chk.violation("set-order:files:raises", "a run with another iteration order of the configuration key sets raises %s: %s" % (type(e).__name__, str(e)[:120]), {})
+        return
+    finally:
+        logging.disable(logging.NOTSET)
+        os.chdir(cwd)
+        shutil.rmtree(tmp, ignore_errors=True)
+    chk.harness_error("C14 H7c: '%s' did not reproduce through the real Calculator" % what)
+
+
+
 def replay_h7_compliances(chk, cc, ks, what):
     """Concrete: the real _calculate_compliances on a concrete stand-in, builtin set replaced by lists iterating in every order."""
     import itertools as it
@@ -879,6 +1031,7 @@ def main():
     h6_fill_idempotent_accepted(chk, rng, tier)
     h6_fill_idempotent_zero_component(chk, rng, tier)
     h7_set_order(chk, rng, tier)
+    h7c_config_order_to_files(chk, rng, tier)
     chk.witness("histories executed", "sat" if len(chk.obligations) >= 5 else "unsat")
     chk.bound(histories="2-3 reads per quantity, 3 access orders, 3 write_output calls, 2 calculators, fill applied twice",
               set_orders="update_config: key sets of 4-5 keys on two nesting levels (all orders: 24 / 72 / 12; thorough also 7 keys, 5040); "
